@@ -13,6 +13,62 @@ import (
 
 var privateCache = map[*ssa.Function]map[*ssa.Alloc]bool{}
 
+// escapeCache: for the address-taken locals that do escape, the instructions at which they do.
+var escapeCache = map[*ssa.Function]map[*ssa.Alloc][]ssa.Instruction{}
+var reachCache = map[*ssa.Function]map[[2]int]bool{}
+
+// blockReaches: there is a CFG path of at least one edge from block a to block b.
+func blockReaches(fn *ssa.Function, a, b *ssa.BasicBlock) bool {
+	m, ok := reachCache[fn]
+	if !ok {
+		m = map[[2]int]bool{}
+		for _, s := range fn.Blocks {
+			seen := map[*ssa.BasicBlock]bool{}
+			stack := append([]*ssa.BasicBlock{}, s.Succs...)
+			for len(stack) > 0 {
+				t := stack[len(stack)-1]
+				stack = stack[:len(stack)-1]
+				if seen[t] {
+					continue
+				}
+				seen[t] = true
+				m[[2]int{s.Index, t.Index}] = true
+				stack = append(stack, t.Succs...)
+			}
+		}
+		reachCache[fn] = m
+	}
+	return m[[2]int{a.Index, b.Index}]
+}
+
+func instrIndex(i ssa.Instruction) int {
+	for k, j := range i.Block().Instrs {
+		if j == i {
+			return k
+		}
+	}
+	return -1
+}
+
+// notYetEscaped: none of the escapes of a can have executed before (or be) the instruction cur.
+func notYetEscaped(fn *ssa.Function, escapes []ssa.Instruction, cur ssa.Instruction) bool {
+	if cur == nil || cur.Block() == nil {
+		return false
+	}
+	for _, u := range escapes {
+		if u == cur || u.Block() == nil {
+			return false
+		}
+		if u.Block() == cur.Block() && instrIndex(u) < instrIndex(cur) {
+			return false
+		}
+		if blockReaches(fn, u.Block(), cur.Block()) {
+			return false
+		}
+	}
+	return true
+}
+
 // readOnlyLib: library functions that only read the bytes of their slice arguments and keep no reference.
 func readOnlyLib(full string) bool {
 	for _, p := range []string{"bytes.Equal", "bytes.Compare", "bytes.HasPrefix", "bytes.HasSuffix", "bytes.IndexByte", "bytes.Contains",
@@ -26,6 +82,13 @@ func readOnlyLib(full string) bool {
 }
 
 func derivedStaysLocal(v ssa.Value, seen map[ssa.Value]bool) bool {
+	var esc []ssa.Instruction
+	return collectEscapes(v, seen, &esc) && len(esc) == 0
+}
+
+// collectEscapes lists the instructions at which the address v (or something derived from it) leaves the
+// function's hands; false when a use cannot be analysed at all.
+func collectEscapes(v ssa.Value, seen map[ssa.Value]bool, esc *[]ssa.Instruction) bool {
 	if seen[v] {
 		return true
 	}
@@ -34,26 +97,28 @@ func derivedStaysLocal(v ssa.Value, seen map[ssa.Value]bool) bool {
 	if refs == nil {
 		return false
 	}
+	out := func(i ssa.Instruction) bool { *esc = append(*esc, i); return true }
+	_ = out
 	for _, ref := range *refs {
 		switch r := ref.(type) {
 		case *ssa.DebugRef:
 		case *ssa.UnOp: // load
 		case *ssa.Store:
 			if r.Val == v {
-				return false // the address itself is stored somewhere
+				*esc = append(*esc, r) // the address itself is stored somewhere
 			}
 		case *ssa.FieldAddr, *ssa.IndexAddr, *ssa.Slice, *ssa.Phi:
-			if !derivedStaysLocal(r.(ssa.Value), seen) {
+			if !collectEscapes(r.(ssa.Value), seen, esc) {
 				return false
 			}
 		case *ssa.Index, *ssa.Lookup, *ssa.Range:
 		case *ssa.Convert:
 			// string(bytes) copies the bytes; any other conversion keeps the reference
 			if bt, ok := r.Type().Underlying().(*types.Basic); !ok || bt.Info()&types.IsString == 0 {
-				return false
+				*esc = append(*esc, r)
 			}
 		case *ssa.ChangeType:
-			if !derivedStaysLocal(r, seen) {
+			if !collectEscapes(r, seen, esc) {
 				return false
 			}
 		case *ssa.Call:
@@ -65,20 +130,21 @@ func derivedStaysLocal(v ssa.Value, seen map[ssa.Value]bool) bool {
 				case "append":
 					// append(dst, src...): reading src is fine; as dst the result aliases it
 					if len(cc.Args) > 0 && cc.Args[0] == v {
-						if !derivedStaysLocal(r, seen) {
+						if !collectEscapes(r, seen, esc) {
 							return false
 						}
 					}
 					continue
 				}
-				return false
+				*esc = append(*esc, r)
+				continue
 			}
 			if callee := cc.StaticCallee(); callee != nil && readOnlyLib(callee.String()) {
 				continue
 			}
-			return false
+			*esc = append(*esc, r)
 		default:
-			return false
+			*esc = append(*esc, ref)
 		}
 	}
 	return true
@@ -90,9 +156,16 @@ func privateAllocs(fn *ssa.Function) map[*ssa.Alloc]bool {
 	}
 	m := map[*ssa.Alloc]bool{}
 	privateCache[fn] = m
+	em := map[*ssa.Alloc][]ssa.Instruction{}
+	escapeCache[fn] = em
 	consider := func(a *ssa.Alloc) {
-		if derivedStaysLocal(a, map[ssa.Value]bool{}) {
-			m[a] = true
+		var esc []ssa.Instruction
+		if collectEscapes(a, map[ssa.Value]bool{}, &esc) {
+			if len(esc) == 0 {
+				m[a] = true
+			} else {
+				em[a] = esc
+			}
 		}
 	}
 	for _, l := range fn.Locals {
@@ -118,7 +191,17 @@ type savedCell struct {
 func (x *Exec) savePrivate(fr *Frame, st *State) []savedCell {
 	var out []savedCell
 	for f := fr; f != nil; f = f.parent {
+		cands := map[*ssa.Alloc]bool{}
 		for a := range privateAllocs(f.fn) {
+			cands[a] = true
+		}
+		// locals whose address does leave the function, but cannot have left it yet at this point
+		for a, esc := range escapeCache[f.fn] {
+			if notYetEscaped(f.fn, esc, f.cur) {
+				cands[a] = true
+			}
+		}
+		for a := range cands {
 			v, ok := f.env[a]
 			if !ok || v.K != KPtr || v.Loc == nil || len(v.Loc.Elems) != 0 || v.Loc.Off != nil {
 				continue
